@@ -52,6 +52,8 @@ def check(prog, rep, tier):
                       '2**k - 2 and 2**k - 1')
     rep.rule('R06.k', 'decoders look a received value up in a constant table only under a test that it is in the '
                       'table (no KeyError for legal values outside it)')
+    rep.rule('R06.l', 'trailing-bit mask of the prefix decoders: for remainder r = 1..7 the mask keeps exactly the top r '
+                      'bits of the last received octet (a wrong mask changes the prefix that comes back)')
     rep.assumptions += ['equality of decoded and given values for concrete inputs is not decided (round-trip '
                         'equality over the value space is not a static property)']
 
@@ -128,6 +130,10 @@ def check(prog, rep, tier):
             rep.ok('R06.i', key, file=fn.file, line=fn.node.lineno, found='both forms reached')
         else:
             rep.undecided('R06.i', key, file=fn.file, line=fn.node.lineno, found='forms reached: %s' % sorted(seenb))
+
+    # ---------------------------------------------------------------- R06.l
+    from .c09 import mask_rule
+    mask_rule(prog, rep, 'R06.l')
 
     # ---------------------------------------------------------------- R06.k
     nfk, lks = common.unguarded_table_lookups(prog, lambda fn: (
